@@ -615,7 +615,7 @@ def nonliteral(s):
     return "".join(list(s)) if isinstance(s, str) else s
 
 
-INT_DTYPES = ["int64", "int64", "int32", "int16", "int8", "uint8", "uint16"]
+INT_DTYPES = ["int64", "int64", "int32", "int16", "int8"]     # signed only: the library negates / subtracts ranks
 
 
 def pick_int_dtype(rng, maxval):
